@@ -433,3 +433,101 @@ contract(
     ensures={"never-returns-normally [C06]": "False"},
     safety_props=["C06"],
 )
+
+# --------------------------------------------------------------------------------------------
+# DictValue._get_changes  (`snapshot({...})[key]` sub-snapshots)
+
+from pyvc.core import fresh_value as _fv
+from pyvc.specs import SPEC_NS as _SNS
+from pyvc.types import parse_ty as _pty
+
+DV = "inline_snapshot._snapshot.dict_value"
+from .adapters import _keys as _dkeys_of, _dget as _dget_of, dict_contains as _dict_contains  # noqa: E402  (DictV model)
+
+CHILDMAP, CHILD = _Abs("ChildMap"), _Abs("Child")
+
+
+def _accessed(I, cm, key):
+    return _z3.Function("ChildMap_has", _so(CHILDMAP), _so(_Abs("Val")), _z3.BoolSort())(cm.t, _vt(I, key))
+
+
+def cm_contains(I, cm, item):
+    return _SV(_accessed(I, cm, item), _BOOL)
+
+
+def cm_index(I, cm, key, node):
+    I.implicit("KeyError", _accessed(I, cm, key), "key-present", node)
+    return _SV(_z3.Function("ChildMap_get", _so(CHILDMAP), _so(_Abs("Val")), _so(CHILD))(cm.t, _vt(I, key)), CHILD)
+
+
+def cm_items(I, args, kwargs, node):
+    cm = args[0]
+    pair = _pty("Tuple[Val,Child]")
+    items = _fv(I.ctx, _pty("List[Tuple[Val,Child]]"), "new_items")
+    acc = sort_of_pair = _so(pair)
+    i = _z3.Int(I.ctx.fresh_name("ci"))
+    k0, c1 = acc.accessor(0, 0), acc.accessor(0, 1)
+    get = _z3.Function("ChildMap_get", _so(CHILDMAP), _so(_Abs("Val")), _so(CHILD))
+    has = _z3.Function("ChildMap_has", _so(CHILDMAP), _so(_Abs("Val")), _z3.BoolSort())
+    I.ctx.assume(_z3.ForAll([i], _z3.Implies(_z3.And(0 <= i, i < items.nz()),
+                 _z3.And(has(cm.t, k0(_z3.Select(items.arr, i))), c1(_z3.Select(items.arr, i)) == get(cm.t, k0(_z3.Select(items.arr, i))))),
+                 patterns=[_z3.Select(items.arr, i)]), tag="items")
+    return items
+
+
+def child_get_changes(I, args, kwargs, node):
+    c = args[0]
+    tr = _z3.Function("child_changes", _so(CHILD), _so(_pty("List[Chg]")))
+    from pyvc.core import unpack as _unpack
+
+    return _Obj("generator", {"trace": _unpack(I.ctx, tr(c.t), _pty("List[Chg]")), "value": None})
+
+
+def child_new_code(I, args, kwargs, node):
+    return _SV(_z3.Function("child_code", _so(CHILD), _so(_Abs("Code")))(args[0].t), _Abs("Code"))
+
+
+_SNS.setdefault("abs_ops", {})["ChildMap"] = {"contains": cm_contains, "index": cm_index}
+from pyvc.defaults import DEFAULT_POLICIES as _DP
+
+_DP["attrs"].update({"ChildMap.items": cm_items, "Child._get_changes": child_get_changes, "Child._new_code": child_new_code})
+
+
+def dv_yield_check(I, v, node, env):
+    """own yields of DictValue._get_changes: Delete(trim) only for a key that was never accessed (C05: "trim only removes
+    ... keys that were never accessed"); DictInsert(create) at the end of the old entries."""
+    if not (isinstance(v, _Obj) and v.rec is None):
+        return
+    kind = v.cls.rsplit(".", 1)[-1]
+    self_ = env.lookup("self")
+    if kind == "Delete":
+        key = env.lookup("key")
+        I.oblige("post", "trims-only-keys-that-were-never-accessed [C05,C14]",
+                 _z3.And(_z3.Not(_accessed(I, self_.fields["_new_value"], key)), _z3.BoolVal(v.fields["flag"] == "trim")))
+    elif kind == "DictInsert":
+        from pyvc.core import zint as _zint
+
+        I.oblige("post", "creates-new-keys-behind-the-old-entries [C05,C01]",
+                 _z3.And(_z3.BoolVal(v.fields["flag"] == "create"), _zint(v.fields["position"]) == _zint(I.call_function(I.lookup("len", env), [self_.fields["_old_value"]], {}))))
+
+
+contract(
+    DV + ".DictValue._get_changes",
+    params={"self": "@DValue"},
+    shapes={"DValue": Shape(DV + ".DictValue", {"_old_value": "DictV", "_new_value": "ChildMap", "_ast_node": "Node", "_context": "@Context"})},
+    requires={
+        # class invariant: a DictValue with an argument was created from a dict display (UndecidedValue.__getitem__ on snapshot({...}))
+        "old-defined": "self._old_value is not undefined",
+        "denotes": "implies(self._ast_node is not None, isinstance_node(self._ast_node, 'Dict') and len(self._ast_node.values) == len(dkeys(self._old_value)))",
+    },
+    loops={
+        0: Loop(index="k", inv={"trivial": "True"}),
+        1: Loop(index="k1", inv={"pending-are-new-keys": "all(not dhas(self._old_value, to_insert[i][0]) for i in range(0, len(to_insert)))"}),
+    },
+    ensures={"terminates-normally [C18]": "True"},
+    frame=[],
+    ghost={"yield_check": dv_yield_check, "none_list_ty": "Node", "locals": {"to_insert": "List[Tuple[Val,Code]]"}, "untracked": ["new_code"],
+           "props": ["C05", "C14", "C01"], "frame_props": ["C14"], "light_feasibility": True},
+    safety_props=["C18"],
+    assumes=["PS5"],
+)
